@@ -366,3 +366,80 @@ class Locale:
             ctx.violation("C04", kind, facts,
                           "in-process (UTF-8) exit %s vs child (%s locale) exit %s; differing files %s; child stderr %s" % (
                               ra.exit_code, case["locale"], rb_.exit_code, diff[:4], rb_.stderr[-300:]))
+
+
+class WriteFault:
+    """C04 under a file-system fault: the same update runs fault-free on one copy of a world and, on a second copy, with the
+    opening-for-write of one configured file failing (disk full / immutable file).  Whatever the run then does - stop, carry
+    on, put files back - every configured file must hold either its old or its new content as a whole: no byte outside the
+    matched spans may differ.  (Nothing is claimed about the exit code or about which files were reached.)"""
+
+    def __init__(self, focus, quick, thorough):
+        self.name = "WRITEFAULT/" + focus
+        self._quick, self._thorough = quick, thorough
+
+    def total(self, tier):
+        return self._quick if tier == "quick" else self._thorough
+
+    def deadline(self, tier):
+        return 170 if tier == "quick" else 1500
+
+    def gen(self, seed, index, tier):
+        rng = runner.rng_for(seed, self.name, index)
+        project = layouts.gen_project(rng, mode=rng.choice(["plain", "bytes"]), vcs="none", clock_patterns=False, allow_symlinks=False)
+        tree = rp.tokenize(project["version_pattern"])
+        flags = gp.gen_flags(rng, tree)
+        flags.pop("pin_date", None)
+        return {"project": project, "ops": [{"op": "update", "flags": flags, "delta": gp.gen_clock_delta(rng)}],
+                "fault_pick": rng.randrange(1000), "errno": rng.choice([28, 13, 1, 122, 30])}
+
+    def run(self, case, ctx):
+        import errno as _errno
+        project = case["project"]
+        op = case["ops"][0]
+        tree = rp.tokenize(project["version_pattern"])
+        clock = tc.step_clock(ctx, dt.date.fromisoformat(project["epoch"]), op.get("delta", 0), gp.has_two_digit_year(tree))
+        argv = ["update"] + gp.flags_to_argv(op.get("flags", {})) + ["--date", clock.isoformat()]
+        state = dict(project["state"])
+        text = rp.render(tree, state)
+        wa = simworld.World(project)
+        wa.materialise()
+        ra = invoker.invoke(wa.dir, argv, clock)
+        ctx.invocations += 1
+        if ra.exit_code != 0:
+            ctx.count("control_run_failed")
+            return
+        new_text = ra.log_value("New Version: ")
+        st = rp.recognise(tree, new_text) if new_text else []
+        if not st:
+            ctx.count("control_version_not_recognised")
+            return
+        paths = sorted(wa.files)
+        target = paths[case["fault_pick"] % len(paths)]
+        wb = simworld.World(project)
+        wb.materialise()
+        rb_ = invoker.invoke(wb.dir, argv, clock, write_fault={"path": target, "errno": case["errno"]})
+        ctx.invocations += 1
+        fired = sum(e.get("fired", 0) for e in rb_.events if e.get("kind") == "io_fault")
+        ctx.event(argv, target, case["errno"], rb_.exit_code, fired, invoker.digest_snapshot(rb_.after))
+        if not fired:
+            ctx.count("write_fault_not_reached")
+            return
+        ctx.fault("fs_open_for_write_" + _errno.errorcode.get(case["errno"], str(case["errno"])))
+        ctx.nontriv((target == wb.syntax, case["errno"], rb_.exit_code, len(paths), tuple(sorted(set(f["regime"] for f in project["files"])))))
+        ctx.sample = {"campaign": self.name, "argv": argv, "unwritable": target, "errno": case["errno"], "exit": rb_.exit_code}
+        facts = {"pattern": project["version_pattern"], "errno": case["errno"], "write_fault": True}
+        for path in paths:
+            have = rb_.after.get(path)
+            old = ra.before.get(path)
+            new = ra.after.get(path)
+            if have != old and have != new:
+                ctx.violation("C04", "bytes_changed_under_write_fault", dict(facts, path=path, regime=wb._regime(path)),
+                              "writing %r failed (injected errno %s); afterwards %r holds neither its old nor its new content: "
+                              "%r (old %r)" % (target, case["errno"], path, (have or b"")[:120], (old or b"")[:120]))
+                return
+        for path, data in rb_.after.items():
+            if path not in ra.after:
+                ctx.violation("C04", "unconfigured_file_written", dict(facts, path=path), "file %r appeared after a failed write" % path)
+                return
+        ctx.probe("write_fault_survived")
